@@ -27,7 +27,11 @@ RULE = ('fragments: random ASTs of 1-5 (thorough 1-8) atoms covering every '
         'whose real and reference match sets were compared and are not both '
         'empty, or a pair decided empty by an atom constraint / bond kind / '
         'molecule prefix after a non-empty skeleton match; distinct by '
-        '(text, molecule).')
+        '(text, molecule).'
+        ' Also: double-bond stereo statements (a-c=d-b skeletons x '
+        'cis/trans/notspecified x negation) on E/Z molecules; fragments '
+        'that mention rings additionally on 18 ring-rich molecules (chain '
+        'bond between rings, spiro, bridged, fused). ')
 ASSUMPTIONS = [
     'molecule facts (ring membership, SSSR ring sizes, aromatic flags, '
     'charges, radical electrons, bond types) are RDKit input, not under test',
@@ -151,10 +155,24 @@ def skeleton(ast):
     return sk
 
 
+_QUERIES = {'n': 0}
+
+
 def check_pair(ctx, ast, text, smi, how, mol, alt_texts=()):
     from pgradd.RINGParser import Read
     case = {'text': text, 'smiles': smi, 'form': how, 'ast': ast}
-    ro = observe(Read, text)
+    # ONE query object per fragment text serves all its molecules, as a
+    # scheme uses its patterns (a query that is only right on first use is
+    # seen on the second molecule); every 7th pair reads the text afresh.
+    _QUERIES['n'] += 1
+    if _QUERIES.get('text') == text and _QUERIES['n'] % 7:
+        ro = {'ok': _QUERIES['q']}
+        ctx.count('pairs_on_a_reused_query_object')
+        case['reused_query_object'] = True
+    else:
+        ro = observe(Read, text)
+        if 'ok' in ro:
+            _QUERIES['text'], _QUERIES['q'] = text, ro['ok']
     ctx.evals()
     if 'exc' in ro:
         ctx.violation('valid fragment not readable (%s)%s' % (
